@@ -49,6 +49,7 @@ FUNCS = [
     ("count", "float64"), ("nanfirst", "float64"), ("last", "float64"), ("argmax", "float64"),
     ("nanargmax", "float64"), ("any", "bool"), ("all", "bool"), ("nansum", "int64"), ("max", "int64"),
 ]  # fmt: skip
+FULL_EAGER = ("sum", "nanprod", "mean", "nanmax", "count", "nanfirst", "argmax", "any")  # quick: full option product for these
 CHUNKED_FUNCS = ["nansum", "prod", "nanmean", "max", "nanmax", "nanmin", "count", "nanfirst", "nanargmax", "any", "nanvar"]
 
 
@@ -62,7 +63,7 @@ def shards(tier, seed):
     out = []
     for func, dtype in FUNCS:
         for engine in ("numpy", "flox", "numbagg"):
-            out.append(dict(kind="eager", func=func, dtype=dtype, engine=engine, n=n,
+            out.append(dict(kind="eager", func=func, dtype=dtype, engine=engine, n=n, tier=tier,
                             reduced=(tier == "quick" and engine != "numpy")))
         if func in CHUNKED_FUNCS and dtype != "int64":
             if tier == "quick" and func in ("prod", "nanvar", "nanmin"):
@@ -191,7 +192,7 @@ def run_shard(shard):
             for lt in lts:
                 present = {x for x in lt if x == x}
                 for exname, sort, fillname, mc in itertools.product(EXPECTED, (True, False), fills, MIN_COUNTS):
-                    if shard.get("reduced") and not (
+                    if (shard.get("reduced") or (shard.get("tier") == "quick" and func not in FULL_EAGER)) and not (
                         exname in ("superset", "permuted-absent") and fillname in ("zero", "neg", "false", "true") and mc in (None, 0, 2)
                     ):
                         continue  # engines other than numpy share everything but the kernels: reduced option product in quick
@@ -214,11 +215,13 @@ def run_shard(shard):
             exnames = ("superset", "permuted-absent", "disjoint") if quick else tuple(EXPECTED)
             fillnames = [f for f in fills if f in ("zero", "neg", "false", "true")] if quick else list(fills)
             mcs = (None, 0, 2) if quick else MIN_COUNTS
+            zero, neg = ("false", "true") if func in ("any", "all") else ("zero", "neg")
+            quick_cfgs = [("superset", True, zero, None), ("superset", True, neg, 2), ("superset", True, zero, 0),
+                          ("permuted-absent", True, zero, None), ("permuted-absent", False, neg, None), ("permuted-absent", False, zero, 2),
+                          ("disjoint", True, zero, None), ("disjoint", False, neg, 2), ("superset", False, neg, None), ("permuted-absent", True, neg, 0)]
             for lt, ch in pairs:
                 present = {x for x in lt if x == x}
-                for exname, sort, fillname, mc in itertools.product(exnames, (True, False), fillnames, mcs):
-                    if quick and sort is False and exname != "permuted-absent":
-                        continue
+                for exname, sort, fillname, mc in (quick_cfgs if quick else itertools.product(exnames, (True, False), fillnames, mcs)):
                     check_point(res, func, dtype, engine, lt, exname, sort, fillname, mc, V, chunks=ch, method=shard["method"])
                     req = set(EXPECTED[exname])
                     if (req - present) and (req & present) and len(ch) > 1:
@@ -226,7 +229,9 @@ def run_shard(shard):
                 # chunked (dask) labels, expected_groups given as ndarray / list / pandas Index
                 if shard["method"] in (None, "map-reduce"):
                     fn = "false" if func in ("any", "all") else "neg"
-                    for exname, sort, egkind in itertools.product(("permuted-absent", "superset"), (True, False), ("ndarray", "list", "index")):
+                    for exname, sort, egkind in (itertools.product(("permuted-absent", "superset"), (True, False), ("ndarray", "list", "index")) if not quick else
+                                                 [("permuted-absent", True, "index"), ("permuted-absent", False, "index"), ("permuted-absent", True, "list"),
+                                                  ("superset", True, "ndarray"), ("permuted-absent", False, "ndarray"), ("superset", False, "list")]):
                         check_point(res, func, dtype, engine, lt, exname, sort, fn, None, V, chunks=ch, method=shard["method"],
                                     egkind=egkind, labels_dask=True)
                 if m == 3 and lt == (0.0, 2.0, 0.0) and ch == (1, 2):
